@@ -1546,6 +1546,7 @@ fn main() {
         run_timeout_s: 60,
         thorough_extra: None,
         warmup: Some(warmup),
+        enumerated: None,
     };
     // `simstore miri <seed> <count>`: run C10 histories directly on the main thread (no worker
     // processes, no adversarial allocator, no hash-seed control) so that Miri can interpret
